@@ -333,7 +333,7 @@ func exhaustive(emit func(proto.Case)) {
 func gen(r *prng.R, f proto.Flags, emit func(proto.Case)) {
 	n := 1500
 	if f.Tier == "thorough" {
-		n = 4000
+		n = 2500
 	}
 	n *= f.Budget
 	for k := 0; k < n; k++ {
